@@ -43,4 +43,6 @@ def run(col, configs, tier):
         from rules import dispatch
         guarded(col, dispatch.rule_dispatch_table, facts)
         guarded(col, X.rule_bigfloat_bits, facts)
+        guarded(col, X.rule_bellerophon_underflow_order, facts)
+        guarded(col, X.rule_quorem_correction, facts)
         guarded(col, X.rule_error_accounting, facts)
